@@ -119,21 +119,26 @@ def _one(item):
         r = sem.routine_named(psy, "s")
         prog = sem.Exporter().routine(r)
     except Unsupported as err:
-        return {"id": tag, "status": "unsupported", "why": str(err)}
+        return [{"id": tag, "status": "unsupported", "why": str(err)}]
     args = [a.name.lower() for a in r.symbol_table.argument_list]
     for d in prog["decls"]:
         if d["name"] in ("idx", "ia"):
             d["data"] = [[2, 1, 4, 3], [1, 1, 2, 2]]
     live = [a for a in args]
     names = {d["name"] for d in prog["decls"]}
-    # two input valuations: first and last value of every scalar domain
+    # three input valuations: every scalar at the first / middle / last value of its
+    # domain, with fills 1, 2 and 4 respectively
     doms = [[n, v] for n, v in dom if n in names]
-    case = {"id": tag, "decls": prog["decls"], "dom": [[n, [v[0], v[-1]] if len(v) > 1 else v]
-                                                       for n, v in doms],
-            "fills": [1, 4], "live": live, "cmpout": False,
-            "subs": prog["subs"] or {"#none": {"formals": [], "locals": [], "body": []}},
-            "progs": [{"body": prog["body"]}]}
-    return {"id": tag, "status": "ok", "case": case, "src": src, "args": args, "use_mod": use_mod}
+    out = []
+    for k, (pick, fill) in enumerate(((0, 1), (None, 2), (-1, 4))):
+        d1 = [[n, [v[len(v) // 2 if pick is None else pick]]] for n, v in doms]
+        case = {"id": f"{tag}~{k}", "decls": prog["decls"], "dom": d1,
+                "fills": [fill], "live": live, "cmpout": False,
+                "subs": prog["subs"] or {"#none": {"formals": [], "locals": [], "body": []}},
+                "progs": [{"body": prog["body"]}]}
+        out.append({"id": f"{tag}~{k}", "status": "ok", "case": case, "src": src, "args": args,
+                    "use_mod": use_mod})
+    return out
 
 
 def _tlc_value(v):
@@ -147,12 +152,55 @@ def _tlc_value(v):
     return None       # undefined
 
 
+def _compare(job):
+    wd, r, fin = job
+    case = r["case"]
+    bad = []
+    val_of = {d[0]: v for d, v in zip(case["dom"], fin["val"])}
+    os.makedirs(wd)
+    try:
+        with open(os.path.join(wd, "r.f90"), "w") as f:
+            f.write(r["src"])
+        with open(os.path.join(wd, "m.f90"), "w") as f:
+            f.write(_driver("s", r["args"], case["decls"], val_of, fin["fm"], r["use_mod"]))
+        p = subprocess.run(["gfortran", "-O0", "-fdefault-real-8", "-fcheck=bounds", "-o", "a.out",
+                            "r.f90", "m.f90"], cwd=wd, stdout=subprocess.PIPE,
+                           stderr=subprocess.STDOUT, text=True)
+        if p.returncode != 0:
+            return [{"id": fin["id"], "why": "gfortran: " + p.stdout[-400:]}]
+        q = subprocess.run(["./a.out"], cwd=wd, stdout=subprocess.PIPE, stderr=subprocess.STDOUT,
+                           text=True, timeout=120)
+        if q.returncode != 0:
+            return [{"id": fin["id"], "why": "run: " + q.stdout[-300:]}]
+        got = _parse_out(q.stdout)
+        for nm in case["live"]:
+            exp = [_tlc_value(v) for v in fin["st"][nm]]
+            have = got.get(nm, [])
+            if len(exp) != len(have):
+                return [{"id": fin["id"], "name": nm, "why": "length"}]
+            for k, (e, h) in enumerate(zip(exp, have)):
+                if e is None:
+                    continue          # undefined in the model: anything goes
+                if isinstance(e, bool):
+                    same = (h == "T") == e
+                elif isinstance(e, int):
+                    same = int(h) == e
+                else:
+                    same = abs(float(h) - float(e)) <= 1e-9 * max(1.0, abs(float(e)))
+                if not same:
+                    return [{"id": fin["id"], "name": nm, "index": k, "tlc": str(e),
+                             "gfortran": h, "val": fin["val"], "fm": fin["fm"]}]
+        return bad
+    finally:
+        shutil.rmtree(wd, ignore_errors=True)
+
+
 def run():
     core.setup_psyclone_env()
     if not shutil.which("gfortran"):
         print("selftest: gfortran not available - skipped")
         return 0
-    recs = [r for r in core.pool_map(_one, _samples(), chunksize=1)]
+    recs = [r for part in core.pool_map(_one, _samples(), chunksize=1) for r in part]
     ok = [r for r in recs if r["status"] == "ok"]
     tmp = core.mktemp("pv-self-")
     try:
@@ -162,61 +210,20 @@ def run():
         res = core.run_tlc("SemDump.tla", "SemDump.cfg", env={"PV_CASES": path})
         finals = res.printed("FINAL")
         byid = {r["id"]: r for r in ok}
-        compared = diffs = skipped = 0
+        compared = skipped = 0
         bad = []
-        built = {}
-        for fin in finals:
+        jobs = []
+        for k, fin in enumerate(finals):
             r = byid[fin["id"]]
             if fin["sig"] not in ("", "return"):
                 skipped += 1
                 continue
-            case = r["case"]
-            val_of = {d[0]: v for d, v in zip(case["dom"], fin["val"])}
-            key = (fin["id"], json.dumps(fin["val"]), fin["fm"])
-            wd = os.path.join(tmp, f"w{len(built)}")
-            os.makedirs(wd)
-            built[key] = wd
-            with open(os.path.join(wd, "r.f90"), "w") as f:
-                f.write(r["src"])
-            with open(os.path.join(wd, "m.f90"), "w") as f:
-                f.write(_driver("s", r["args"], case["decls"], val_of, fin["fm"], r["use_mod"]))
-            p = subprocess.run(["gfortran", "-O0", "-fdefault-real-8", "-fcheck=bounds", "-o", "a.out",
-                                "r.f90", "m.f90"], cwd=wd, stdout=subprocess.PIPE,
-                               stderr=subprocess.STDOUT, text=True)
-            if p.returncode != 0:
-                bad.append({"id": fin["id"], "why": "gfortran: " + p.stdout[-400:]})
-                continue
-            q = subprocess.run(["./a.out"], cwd=wd, stdout=subprocess.PIPE, stderr=subprocess.STDOUT,
-                               text=True, timeout=60)
-            if q.returncode != 0:
-                bad.append({"id": fin["id"], "why": "run: " + q.stdout[-300:]})
-                continue
-            got = _parse_out(q.stdout)
-            compared += 1
-            for nm in case["live"]:
-                exp = [_tlc_value(v) for v in fin["st"][nm]]
-                have = got.get(nm, [])
-                if len(exp) != len(have):
-                    bad.append({"id": fin["id"], "name": nm, "why": "length"})
-                    break
-                for k, (e, h) in enumerate(zip(exp, have)):
-                    if e is None:
-                        continue          # undefined in the model: anything goes
-                    if isinstance(e, bool):
-                        same = (h == "T") == e
-                    elif isinstance(e, int):
-                        same = int(h) == e
-                    else:
-                        same = abs(float(h) - float(e)) <= 1e-9 * max(1.0, abs(float(e)))
-                    if not same:
-                        diffs += 1
-                        bad.append({"id": fin["id"], "name": nm, "index": k, "tlc": str(e),
-                                    "gfortran": h, "val": fin["val"], "fm": fin["fm"]})
-                        break
-                else:
-                    continue
-                break
-            shutil.rmtree(wd, ignore_errors=True)
+            jobs.append((os.path.join(tmp, f"w{k}"), r, fin))
+        from concurrent.futures import ThreadPoolExecutor
+        with ThreadPoolExecutor(core.NCPU) as ex:
+            for res1 in ex.map(_compare, jobs):
+                compared += 1
+                bad.extend(res1)
         print(f"selftest: {len(ok)} routines, {compared} (routine, input) pairs compared with gfortran, "
               f"{skipped} undefined in the model, {len(bad)} disagreements")
         for b in bad[:10]:
